@@ -549,6 +549,14 @@ func (r *Raft) Stop() {
 	}
 
 	r.state = Shutdown
+
+	// Cancel any pending operations. They would otherwise still be pending when the node
+	// is started again and could be resolved with the result of another operation.
+	respond(r.configurationResponseCh, Configuration{}, ErrNotLeader)
+	r.configurationResponseCh = nil
+	r.operationManager.notifyLostLeaderShip(r.id, r.leaderID)
+	r.operationManager = newOperationManager(r.options.leaseDuration)
+
 	r.applyCond.Broadcast()
 	r.commitCond.Broadcast()
 	r.readOnlyCond.Broadcast()
